@@ -51,7 +51,7 @@ CHECKS = {
    text="Mirrored scenarios (handler scripts incl. streaming handlers with drop callbacks, Stop at a handler index, tiny memory limits, bad selectors/encodings, free-without-end, builder freed early, strings freed late) are executed through declarations that mirror lol_html.h and through the Rust API; histories and sink bytes must be equal, failures must surface as return codes plus a last-error string, drop callbacks must run once, and ASan/LSan must stay silent (leaks attributed by a periodic leak probe with re-exploration).",
    ref="DESIGN.md section 5 C17"),
  "C18": dict(level="exploration", tech="deterministic simulation with a seeded baton scheduler over real OS threads (one thread runs at a time, hand-over between any two API calls); oracle = solo single-thread histories and a per-thread last-error model",
-   text="N rewriter instances (Send ones migrating at every call, others pinned), C last-error producers/consumers and selector parses are interleaved over 2-8 real threads by a seeded scheduler; every instance's history must equal its solo run, each last-error take must return the calling thread's own pending error, and repetition in the same and in fresh processes must give identical digests.",
+   text="N rewriter instances (Send ones migrating at every call, others pinned), C last-error producers/consumers and selector parses are interleaved over 2-8 real threads by a seeded scheduler; every instance's history must equal its solo run, each last-error take must return the calling thread's own pending error, and repetition in the same and in fresh processes must give identical digests. The thorough tier adds 64 Miri schedules (many-seeds, preemption inside calls, data-race detection) of truly concurrent instances.",
    ref="DESIGN.md section 5 C18"),
  "C01": dict(level="exploration", tech="deterministic simulation: seeded delivery schedules (cut sweeps, empty writes, early close, drop) with conservation oracle",
    text="Seeded exploration of (document, encoding, strict, observer set) x delivery schedules with a byte-conservation oracle checked during and after each run; every 1-cut (and 2-cut for small documents) of each explored document is enumerated, documents and configurations are sampled. Exploration is the honest level: inputs are unbounded, so a clean batch is evidence, not proof.",
